@@ -698,3 +698,69 @@ Qed.
 (** ... and the witness schedule is rejected by [no_drop] (the class is not empty). *)
 Example wit_has_drop : no_drop (init wit_cfg wit_in) wit_tr = false.
 Proof. vm_compute. reflexivity. Qed.
+
+Theorem invariant_every_schedule cs xs tr s' :
+  run_trace (init cs xs) tr = Some s' -> SInv s' /\ src_all s' = xs /\ shape s' = cs.
+Proof.
+  intros H. destruct (init_inv cs xs) as (I & A & B).
+  destruct (run_trace_inv _ _ _ H I) as (I' & A' & B'). rewrite A', B'. auto.
+Qed.
+
+(** * 8. FIFO processors: the chain specification is the input order *)
+
+Definition ltag (c : lcfg) : N := match c with Single p => tag p | Comp p1 p2 => N.add (tag p1) (tag p2) end.
+Fixpoint sumtags (cs : list lcfg) : N := match cs with [] => 0%N | c :: r => N.add (ltag c) (sumtags r) end.
+Definition fifo_cfg (c : lcfg) : Prop := match c with Single p => fifo p | Comp p1 p2 => fifo p1 /\ fifo p2 end.
+Fixpoint fifo_shape (cs : list lcfg) : Prop := match cs with [] => True | c :: r => fifo_cfg c /\ fifo_shape r end.
+
+Lemma fifo_peff p h x : fifo p -> peff p h x = (h, [Ok (N.add x (tag p))], false).
+Proof.
+  Transparent peff. intros (A & B & C). unfold peff. rewrite A, B. cbn [memN existsb].
+  destruct (Nat.leb_spec (grp p) 1); [reflexivity|lia]. Opaque peff.
+Qed.
+
+Lemma fifo_run p : fifo p -> forall xs,
+  pushes p xs = map (fun x => Ok (N.add x (tag p))) xs /\ failed p xs = [].
+Proof.
+  intros F xs. induction xs as [|x xs IH] using rev_ind.
+  - destruct (run_nil p) as (_ & B & C). rewrite B, C. auto.
+  - destruct IH as [IH1 IH2].
+    destruct (run_snoc_peff p xs x _ _ _ (fifo_peff p (heldof p xs) x F)) as (_ & R2 & R3).
+    rewrite R2, R3, IH1, IH2, map_app. auto.
+Qed.
+
+Lemma oks_map_Ok (f : N -> N) xs : oks (map (fun x => Ok (f x)) xs) = map f xs.
+Proof. induction xs as [|x r IH]; cbn; [reflexivity|]. f_equal. exact IH. Qed.
+
+Lemma fifo_lspec c I : fifo_cfg c -> lspec c I = map (fun x => N.add x (ltag c)) I.
+Proof.
+  destruct c as [p|p1 p2]; cbn [fifo_cfg lspec ltag].
+  - intros F. destruct (fifo_run p F I) as [A _]. rewrite A. apply oks_map_Ok.
+  - intros [F1 F2]. destruct (fifo_run p1 F1 I) as [A _]. rewrite A, oks_map_Ok.
+    destruct (fifo_run p2 F2 (map (fun x => N.add x (tag p1)) I)) as [B _]. rewrite B, oks_map_Ok, map_map.
+    apply map_ext. intros x. now rewrite N.add_assoc.
+Qed.
+
+Lemma fifo_chain cs : fifo_shape cs -> forall xs,
+  chain_spec cs xs = map (fun x => N.add x (sumtags cs)) xs.
+Proof.
+  unfold chain_spec. induction cs as [|c r IH]; intros F xs; cbn [fold_left sumtags].
+  - rewrite <- (map_id xs) at 1. apply map_ext. intros x. now rewrite N.add_0_r.
+  - destruct F as [Fc Fr]. rewrite (IH Fr), (fifo_lspec c xs Fc), map_map.
+    apply map_ext. intros x. now rewrite N.add_assoc.
+Qed.
+
+Theorem fifo_order_safe cs xs tr s' :
+  safe_shape cs -> fifo_shape cs ->
+  run_trace (init cs xs) tr = Some s' -> quiescent s' = true ->
+  okitems (emitted_of s') = map (fun x => N.add x (sumtags cs)) xs.
+Proof.
+  intros S F H Q. rewrite <- (fifo_chain cs F). eapply fifo_preserved_safe; eauto.
+Qed.
+
+Example ex_fifo :
+  safe_shape [Single (pfifo 100 [2]); Comp (pfifo 10 [1]) (pfifo 1000 [])] /\
+  fifo_shape [Single (pfifo 100 [2]); Comp (pfifo 10 [1]) (pfifo 1000 [])].
+Proof.
+  cbn. unfold fifo. cbn. repeat split; auto; try (intros y; apply slowb_nil).
+Qed.
